@@ -1089,11 +1089,14 @@ impl TDigestView<'_> {
         let first_mean = self.centroids[0].mean;
         if value < first_mean {
             if first_mean - self.min > 0. {
+                // the sample at min belongs to the first centroid: it carries at most half its weight
+                let half_weight = self.centroids[0].weight() / 2.;
+                let at_min = half_weight.min(1.);
                 return Some(if value == self.min {
-                    0.5 / centroids_weight
+                    at_min / 2. / centroids_weight
                 } else {
-                    (1. + (((value - self.min) / (first_mean - self.min))
-                        * ((self.centroids[0].weight() / 2.) - 1.)))
+                    (at_min
+                        + (((value - self.min) / (first_mean - self.min)) * (half_weight - at_min)))
                         / centroids_weight
                 });
             }
@@ -1104,12 +1107,14 @@ impl TDigestView<'_> {
         let last_mean = self.centroids[num_centroids - 1].mean;
         if value > last_mean {
             if self.max - last_mean > 0. {
+                // the sample at max belongs to the last centroid: it carries at most half its weight
+                let half_weight = self.centroids[num_centroids - 1].weight() / 2.;
+                let at_max = half_weight.min(1.);
                 return Some(if value == self.max {
-                    1. - (0.5 / centroids_weight)
+                    1. - (at_max / 2. / centroids_weight)
                 } else {
-                    1.0 - ((1.0
-                        + (((self.max - value) / (self.max - last_mean))
-                            * ((self.centroids[num_centroids - 1].weight() / 2.) - 1.)))
+                    1.0 - ((at_max
+                        + (((self.max - value) / (self.max - last_mean)) * (half_weight - at_max)))
                         / centroids_weight)
                 });
             }
